@@ -240,9 +240,9 @@ Proof.
     simpl. rewrite IH. reflexivity.
 Qed.
 
-Lemma ins_desc_sorted_Q : forall (x : str * num QNum) (l : counter QNum),
+Lemma ins_desc_sorted_Q : forall (x : str * Q) (l : list (str * Q)),
   StronglySorted (fun a b : str * Q => (snd b <= snd a)%Q) l ->
-  StronglySorted (fun a b : str * Q => (snd b <= snd a)%Q) (ins_desc x l).
+  StronglySorted (fun a b : str * Q => (snd b <= snd a)%Q) (@ins_desc QNum x l).
 Proof.
   intros x l H. induction H as [|y r Hs IH Hf].
   - simpl. constructor; constructor.
